@@ -529,7 +529,37 @@ fn hostile_subtree(rng: &mut Rng) -> GeneralSubtree {
 	}
 }
 
+/// Half of the hostile parameter sets are hostile in one or two dimensions only, so that an
+/// early refusal of one field does not shield the code handling the others.
 fn hostile_params(rng: &mut Rng) -> CertificateParams {
+	let h = hostile_params_full(rng);
+	if rng.chance(1, 2) {
+		return h;
+	}
+	let mut p = CertificateParams::default();
+	for _ in 0..1 + rng.below(2) {
+		match rng.below(12) {
+			0 => p.not_before = h.not_before,
+			1 => p.not_after = h.not_after,
+			2 => p.serial_number = h.serial_number.clone(),
+			3 => p.subject_alt_names = h.subject_alt_names.clone(),
+			4 => p.distinguished_name = h.distinguished_name.clone(),
+			5 => p.is_ca = h.is_ca.clone(),
+			6 => p.key_usages = h.key_usages.clone(),
+			7 => p.extended_key_usages = h.extended_key_usages.clone(),
+			8 => p.name_constraints = h.name_constraints.clone(),
+			9 => p.crl_distribution_points = h.crl_distribution_points.clone(),
+			10 => p.custom_extensions = h.custom_extensions.clone(),
+			_ => {
+				p.use_authority_key_identifier_extension = h.use_authority_key_identifier_extension;
+				p.key_identifier_method = h.key_identifier_method.clone();
+			},
+		}
+	}
+	p
+}
+
+fn hostile_params_full(rng: &mut Rng) -> CertificateParams {
 	let mut p = CertificateParams::default();
 	p.not_before = hostile_time(rng);
 	p.not_after = hostile_time(rng);
@@ -645,7 +675,13 @@ fn hostile_generation(ctx: &Ctx, env: &Env, case: &CaseId, rng: &mut Rng) {
 	let use_weird = rng.chance(1, 4);
 	let key: &KeyPair = if use_weird { &weird } else { &env.key };
 	let p1 = p.clone();
-	if let Some(Ok(c)) = call(ctx, env, case, "self_signed", &txt, || p1.self_signed(key)) {
+	let r1 = call(ctx, env, case, "self_signed", &txt, || p1.self_signed(key));
+	ctx.count(match &r1 {
+		Some(Ok(_)) => "outcome:hostile-self_signed:ok",
+		Some(Err(_)) => "outcome:hostile-self_signed:refused",
+		None => "outcome:hostile-self_signed:panicked",
+	});
+	if let Some(Ok(c)) = r1 {
 		let _ = call(ctx, env, case, "cert_accessors", &txt, || {
 			(c.pem().len(), c.der().len(), c.key_identifier().len(), format!("{:?}", c).len(), format!("{:?}", c.params()).len())
 		});
@@ -655,7 +691,13 @@ fn hostile_generation(ctx: &Ctx, env: &Env, case: &CaseId, rng: &mut Rng) {
 		let _ = call(ctx, env, case, "signed_by(hostile issuer)", &|| crate::util::clip(&d5, 3000), || p5.signed_by(&env.key, &c, key).map(|x| x.der().len()));
 		let crl = hostile_crl(rng);
 		let dc = format!("{:?}", crl);
-		if let Some(Ok(l)) = call(ctx, env, case, "crl_signed_by", &|| crate::util::clip(&dc, 3000), || crl.signed_by(&c, key)) {
+		let rl = call(ctx, env, case, "crl_signed_by", &|| crate::util::clip(&dc, 3000), || crl.signed_by(&c, key));
+		ctx.count(match &rl {
+			Some(Ok(_)) => "outcome:hostile-crl:ok",
+			Some(Err(_)) => "outcome:hostile-crl:refused",
+			None => "outcome:hostile-crl:panicked",
+		});
+		if let Some(Ok(l)) = rl {
 			let _ = call(ctx, env, case, "crl_accessors", &|| crate::util::clip(&dc, 3000), || (l.pem().map(|p| p.len()), l.der().len(), format!("{:?}", l).len()));
 		}
 	}
@@ -701,7 +743,50 @@ fn hostile_generation(ctx: &Ctx, env: &Env, case: &CaseId, rng: &mut Rng) {
 	let _ = call(ctx, env, case, "serial_display", &|| format!("{:?}", sn), || (format!("{}", sn).len(), sn.len(), sn.to_bytes().len()));
 }
 
+fn benign_crl() -> CertificateRevocationListParams {
+	CertificateRevocationListParams {
+		this_update: OffsetDateTime::from_unix_timestamp(1_700_000_000).unwrap(),
+		next_update: OffsetDateTime::from_unix_timestamp(1_800_000_000).unwrap(),
+		crl_number: SerialNumber::from(7u64),
+		issuing_distribution_point: None,
+		revoked_certs: vec![RevokedCertParams {
+			serial_number: SerialNumber::from(9u64),
+			revocation_time: OffsetDateTime::from_unix_timestamp(1_690_000_000).unwrap(),
+			reason_code: None,
+			invalidity_date: None,
+		}],
+		key_identifier_method: KeyIdMethod::Sha256,
+	}
+}
+
 fn hostile_crl(rng: &mut Rng) -> CertificateRevocationListParams {
+	let h = hostile_crl_full(rng);
+	if rng.chance(1, 2) {
+		return h;
+	}
+	let mut c = benign_crl();
+	let mut h = h;
+	for _ in 0..1 + rng.below(2) {
+		match rng.below(8) {
+			0 => c.this_update = h.this_update,
+			1 => c.next_update = h.next_update,
+			2 => c.crl_number = h.crl_number.clone(),
+			3 => c.issuing_distribution_point = h.issuing_distribution_point.take(),
+			4 => c.key_identifier_method = h.key_identifier_method.clone(),
+			5 => c.revoked_certs[0].revocation_time = hostile_time(rng),
+			6 => c.revoked_certs[0].invalidity_date = Some(hostile_time(rng)),
+			_ => {
+				if !h.revoked_certs.is_empty() {
+					c.revoked_certs = std::mem::take(&mut h.revoked_certs);
+					c.revoked_certs.push(benign_crl().revoked_certs.remove(0));
+				}
+			},
+		}
+	}
+	c
+}
+
+fn hostile_crl_full(rng: &mut Rng) -> CertificateRevocationListParams {
 	CertificateRevocationListParams {
 		this_update: hostile_time(rng),
 		next_update: hostile_time(rng),
@@ -754,6 +839,54 @@ fn hostile_crl(rng: &mut Rng) -> CertificateRevocationListParams {
 	}
 }
 
+/// Directed date boundaries: every date-bearing field x years at both ends of the encodable range
+/// and at the UTCTime/GeneralizedTime switch x first/last day x times next to midnight x offsets
+/// that move the UTC value across the boundary.
+const TB_YEARS: [i32; 12] = [-9999, -1, 0, 1, 1949, 1950, 2049, 2050, 9998, 9999, 1970, 1969];
+const TB_DAYS: [(u8, u8); 2] = [(1, 1), (12, 31)];
+const TB_TIMES: [(u8, u8, u8, u32); 5] = [(0, 0, 0, 0), (0, 30, 0, 0), (23, 30, 0, 0), (23, 59, 59, 999_999_999), (12, 0, 0, 1)];
+const TB_OFFSETS: [i32; 11] = [0, 1, -1, 3600, -3600, 93599, -93599, 1800, -1800, 86400, -86400];
+const TB_FIELDS: u64 = 6;
+
+fn time_boundary_count() -> u64 {
+	TB_FIELDS * (TB_YEARS.len() * TB_DAYS.len() * TB_TIMES.len() * TB_OFFSETS.len()) as u64
+}
+
+fn time_boundary(ctx: &Ctx, env: &Env, case: &CaseId, i: u64) {
+	let mut k = i;
+	let mut take = |n: usize| { let r = (k % n as u64) as usize; k /= n as u64; r };
+	let off = TB_OFFSETS[take(TB_OFFSETS.len())];
+	let (h, mi, sec, ns) = TB_TIMES[take(TB_TIMES.len())];
+	let (mo, d) = TB_DAYS[take(TB_DAYS.len())];
+	let y = TB_YEARS[take(TB_YEARS.len())];
+	let field = take(TB_FIELDS as usize);
+	let date = match Date::from_calendar_date(y, Month::try_from(mo).unwrap(), d) {
+		Ok(d) => d,
+		Err(_) => return,
+	};
+	let t = PrimitiveDateTime::new(date, Time::from_hms_nano(h, mi, sec, ns).unwrap()).assume_offset(UtcOffset::from_whole_seconds(off).unwrap());
+	let txt = || format!("field {} = {:?}", ["not_before", "not_after", "this_update", "next_update", "revocation_time", "invalidity_date"][field], t);
+	ctx.count("enum:time-boundaries");
+	if field < 2 {
+		let mut p = CertificateParams::default();
+		if field == 0 { p.not_before = t } else { p.not_after = t }
+		let p2 = p.clone();
+		let r = call(ctx, env, case, "self_signed(time boundary)", &txt, || p.self_signed(&env.key).map(|c| c.der().len()));
+		ctx.count(match r { Some(Ok(_)) => "outcome:time-boundary:ok", Some(Err(_)) => "outcome:time-boundary:refused", None => "outcome:time-boundary:panicked" });
+		let _ = call(ctx, env, case, "signed_by(time boundary)", &txt, || p2.signed_by(&env.key, &env.ca, &env.key).map(|c| c.der().len()));
+	} else {
+		let mut c = benign_crl();
+		match field {
+			2 => c.this_update = t,
+			3 => c.next_update = t,
+			4 => c.revoked_certs[0].revocation_time = t,
+			_ => c.revoked_certs[0].invalidity_date = Some(t),
+		}
+		let r = call(ctx, env, case, "crl_signed_by(time boundary)", &txt, || c.signed_by(&env.ca, &env.key).map(|l| l.der().len()));
+		ctx.count(match r { Some(Ok(_)) => "outcome:time-boundary:ok", Some(Err(_)) => "outcome:time-boundary:refused", None => "outcome:time-boundary:panicked" });
+	}
+}
+
 pub fn run(ctx: &Ctx, shard: (u64, u64)) {
 	let key = KeyPair::generate().expect("keygen");
 	let mut cap = ParamSpec::minimal();
@@ -792,7 +925,8 @@ pub fn run(ctx: &Ctx, shard: (u64, u64)) {
 		});
 		let (si, sn) = shard;
 		let marker = std::env::var("VERIF_MARKER_FILE").ok();
-		let workloads: [(&str, u64); 5] = [
+		let workloads: [(&str, u64); 6] = [
+			("time-boundaries", time_boundary_count()),
 			("corpus", corpus.der.len() as u64 + corpus.pem.len() as u64),
 			("der-mutants", ctx.scale(120_000, 6_000_000)),
 			("pem-mutants", ctx.scale(20_000, 600_000)),
@@ -864,6 +998,7 @@ pub fn run(ctx: &Ctx, shard: (u64, u64)) {
 						parse_text_input(ctx, &env, &case, &mut rng);
 						ctx.distinct(fnv64(&b) ^ i);
 					},
+					"time-boundaries" => time_boundary(ctx, &env, &case, i),
 					_ => {
 						hostile_generation(ctx, &env, &case, &mut rng);
 						ctx.distinct(i.wrapping_mul(0x9E3779B97F4A7C15) ^ ctx.seed);
